@@ -24,92 +24,92 @@ variable {α : Type} [Add α] [Sub α] [Mul α] [Div α] [Neg α] [LE α] [LT α
 
 when_translated Gen.Geom_Rect_Empty in
 theorem Geom_Rect_Empty_eq (r : Geom_Rect α) : Geom_Rect_Empty r = (flatR r).empty := by
-  geo_tie [Geom.Rect.empty]
+  geo_tie [Gen.Geom_Rect_Empty, Geom.Rect.empty] []
 when_translated Gen.Geom_Rect_Right in
 theorem Geom_Rect_Right_eq (r : Geom_Rect α) : Geom_Rect_Right r = (flatR r).right := by
-  geo_tie [Geom.Rect.right]
+  geo_tie [Gen.Geom_Rect_Right, Geom.Rect.right] []
 when_translated Gen.Geom_Rect_Bottom in
 theorem Geom_Rect_Bottom_eq (r : Geom_Rect α) : Geom_Rect_Bottom r = (flatR r).bottom := by
-  geo_tie [Geom.Rect.bottom]
+  geo_tie [Gen.Geom_Rect_Bottom, Geom.Rect.bottom] []
 when_translated Gen.Geom_Rect_TopLeft in
 theorem Geom_Rect_TopLeft_eq (r : Geom_Rect α) : flatP (Geom_Rect_TopLeft r) = (flatR r).topLeft := by
-  geo_tie [Geom.Rect.topLeft]
+  geo_tie [Gen.Geom_Rect_TopLeft, Geom.Rect.topLeft] []
 when_translated Gen.Geom_Rect_TopRight in
 theorem Geom_Rect_TopRight_eq (r : Geom_Rect α) : flatP (Geom_Rect_TopRight r) = (flatR r).topRight := by
-  geo_tie [Geom.Rect.topRight, Geom.Rect.right]
+  geo_tie [Gen.Geom_Rect_TopRight, Geom.Rect.topRight] [Geom.Rect.right]
 when_translated Gen.Geom_Rect_BottomRight in
 theorem Geom_Rect_BottomRight_eq (r : Geom_Rect α) : flatP (Geom_Rect_BottomRight r) = (flatR r).bottomRight := by
-  geo_tie [Geom.Rect.bottomRight, Geom.Rect.right, Geom.Rect.bottom]
+  geo_tie [Gen.Geom_Rect_BottomRight, Geom.Rect.bottomRight] [Geom.Rect.right, Geom.Rect.bottom]
 when_translated Gen.Geom_Rect_BottomLeft in
 theorem Geom_Rect_BottomLeft_eq (r : Geom_Rect α) : flatP (Geom_Rect_BottomLeft r) = (flatR r).bottomLeft := by
-  geo_tie [Geom.Rect.bottomLeft, Geom.Rect.bottom]
+  geo_tie [Gen.Geom_Rect_BottomLeft, Geom.Rect.bottomLeft] [Geom.Rect.bottom]
 when_translated Gen.Geom_Rect_CenterX in
 theorem Geom_Rect_CenterX_eq (r : Geom_Rect α) : Geom_Rect_CenterX r = (flatR r).centerX (· / 2) := by
-  geo_tie [Geom.Rect.centerX]
+  geo_tie [Gen.Geom_Rect_CenterX, Geom.Rect.centerX] []
 when_translated Gen.Geom_Rect_CenterY in
 theorem Geom_Rect_CenterY_eq (r : Geom_Rect α) : Geom_Rect_CenterY r = (flatR r).centerY (· / 2) := by
-  geo_tie [Geom.Rect.centerY]
+  geo_tie [Gen.Geom_Rect_CenterY, Geom.Rect.centerY] []
 when_translated Gen.Geom_Rect_Contains in
 theorem Geom_Rect_Contains_eq (r i : Geom_Rect α) : Geom_Rect_Contains r i = (flatR r).contains (flatR i) := by
-  geo_tie [Geom.Rect.contains, Geom.Rect.empty, Geom.Rect.right, Geom.Rect.bottom]
+  geo_tie [Gen.Geom_Rect_Contains, Geom.Rect.contains] [Geom.Rect.empty, Geom.Rect.right, Geom.Rect.bottom]
 when_translated Gen.Geom_Rect_Intersects in
 theorem Geom_Rect_Intersects_eq (r o : Geom_Rect α) : Geom_Rect_Intersects r o = (flatR r).intersects (flatR o) := by
-  geo_tie [Geom.Rect.intersects, Geom.Rect.empty, Geom.Rect.right, Geom.Rect.bottom]
+  geo_tie [Gen.Geom_Rect_Intersects, Geom.Rect.intersects] [Geom.Rect.empty, Geom.Rect.right, Geom.Rect.bottom]
 when_translated Gen.Geom_Rect_Intersect in
 theorem Geom_Rect_Intersect_eq (r o : Geom_Rect α) :
     flatR (Geom_Rect_Intersect r o) = (flatR r).intersect (flatR o) := by
-  geo_tie [Geom.Rect.intersect, Geom.Rect.empty, Geom.Rect.right, Geom.Rect.bottom, Geom.Rect.zero]
+  geo_tie [Gen.Geom_Rect_Intersect, Geom.Rect.intersect] [Geom.Rect.empty, Geom.Rect.right, Geom.Rect.bottom, Geom.Rect.zero]
 when_translated Gen.Geom_Rect_Union in
 theorem Geom_Rect_Union_eq (r o : Geom_Rect α) : flatR (Geom_Rect_Union r o) = (flatR r).union (flatR o) := by
-  geo_tie [Geom.Rect.union, Geom.Rect.empty, Geom.Rect.right, Geom.Rect.bottom, Geom.Rect.zero]
+  geo_tie [Gen.Geom_Rect_Union, Geom.Rect.union] [Geom.Rect.empty, Geom.Rect.right, Geom.Rect.bottom, Geom.Rect.zero]
 when_translated Gen.Geom_Rect_Expand in
 theorem Geom_Rect_Expand_eq (r : Geom_Rect α) (p : Geom_Point α) :
     flatR (Geom_Rect_Expand r p) = (flatR r).expand (flatP p) := by
-  geo_tie [Geom.Rect.expand, Geom.Rect.right, Geom.Rect.bottom]
+  geo_tie [Gen.Geom_Rect_Expand, Geom.Rect.expand] [Geom.Rect.right, Geom.Rect.bottom]
 when_translated Gen.Geom_Rect_Inset in
 theorem Geom_Rect_Inset_eq (r : Geom_Rect α) (i : Geom_Insets α) :
     flatR (Geom_Rect_Inset r i) = (flatR r).inset (flatI i) := by
-  geo_tie [Geom.Rect.inset, Geom.Insets.width, Geom.Insets.height]
+  geo_tie [Gen.Geom_Rect_Inset, Geom.Rect.inset] [Geom.Insets.width, Geom.Insets.height]
 
 /-! ## Point, Insets -/
 
 when_translated Gen.Geom_Point_In in
 theorem Geom_Point_In_eq (p : Geom_Point α) (r : Geom_Rect α) : Geom_Point_In p r = (flatP p).inRect (flatR r) := by
-  geo_tie [Geom.Point.inRect, Geom.Rect.empty, Geom.Rect.right, Geom.Rect.bottom]
+  geo_tie [Gen.Geom_Point_In, Geom.Point.inRect] [Geom.Rect.empty, Geom.Rect.right, Geom.Rect.bottom]
 when_translated Gen.Geom_Insets_Width in
 theorem Geom_Insets_Width_eq (i : Geom_Insets α) : Geom_Insets_Width i = (flatI i).width := by
-  geo_tie [Geom.Insets.width]
+  geo_tie [Gen.Geom_Insets_Width, Geom.Insets.width] []
 when_translated Gen.Geom_Insets_Height in
 theorem Geom_Insets_Height_eq (i : Geom_Insets α) : Geom_Insets_Height i = (flatI i).height := by
-  geo_tie [Geom.Insets.height]
+  geo_tie [Gen.Geom_Insets_Height, Geom.Insets.height] []
 
 /-! ## Matrix -/
 
 when_translated Gen.Geom_NewIdentityMatrix in
 theorem Geom_NewIdentityMatrix_eq : flatM (Geom_NewIdentityMatrix (α := α)) = Geom.Matrix.identity := by
-  geo_tie [Geom.Matrix.identity]
+  geo_tie [Gen.Geom_NewIdentityMatrix, Geom.Matrix.identity] []
 when_translated Gen.Geom_NewTranslationMatrix in
 theorem Geom_NewTranslationMatrix_eq (tx ty : α) :
     flatM (Geom_NewTranslationMatrix tx ty) = Geom.Matrix.newTranslation tx ty := by
-  geo_tie [Geom.Matrix.newTranslation]
+  geo_tie [Gen.Geom_NewTranslationMatrix, Geom.Matrix.newTranslation] []
 when_translated Gen.Geom_NewScaleMatrix in
 theorem Geom_NewScaleMatrix_eq (sx sy : α) : flatM (Geom_NewScaleMatrix sx sy) = Geom.Matrix.newScale sx sy := by
-  geo_tie [Geom.Matrix.newScale]
+  geo_tie [Gen.Geom_NewScaleMatrix, Geom.Matrix.newScale] []
 when_translated Gen.Geom_Matrix_Translate in
 theorem Geom_Matrix_Translate_eq (m : Geom_Matrix α) (tx ty : α) :
     flatM (Geom_Matrix_Translate m tx ty) = (flatM m).translate tx ty := by
-  geo_tie [Geom.Matrix.translate]
+  geo_tie [Gen.Geom_Matrix_Translate, Geom.Matrix.translate] []
 when_translated Gen.Geom_Matrix_Scale in
 theorem Geom_Matrix_Scale_eq (m : Geom_Matrix α) (sx sy : α) :
     flatM (Geom_Matrix_Scale m sx sy) = (flatM m).scale sx sy := by
-  geo_tie [Geom.Matrix.scale]
+  geo_tie [Gen.Geom_Matrix_Scale, Geom.Matrix.scale] []
 when_translated Gen.Geom_Matrix_Multiply in
 theorem Geom_Matrix_Multiply_eq (m o : Geom_Matrix α) :
     flatM (Geom_Matrix_Multiply m o) = (flatM m).multiply (flatM o) := by
-  geo_tie [Geom.Matrix.multiply]
+  geo_tie [Gen.Geom_Matrix_Multiply, Geom.Matrix.multiply] []
 when_translated Gen.Geom_Matrix_TransformPoint in
 theorem Geom_Matrix_TransformPoint_eq (m : Geom_Matrix α) (p : Geom_Point α) :
     flatP (Geom_Matrix_TransformPoint m p) = (flatM m).transformPoint (flatP p) := by
-  geo_tie [Geom.Matrix.transformPoint]
+  geo_tie [Gen.Geom_Matrix_TransformPoint, Geom.Matrix.transformPoint] []
 
 end C18Gen
